@@ -380,7 +380,7 @@ def run_obl(prop_id, o, workdir, extra_defs):
 
 
 def check_property(prop_id, obls, tier, explanation, level='model_checking', trusted=None, assumptions=None,
-                   jobs=None, replay_dir=None):
+                   jobs=None, replay_dir=None, prepare=None):
     """run all obligations of a property, print verdict lines, write evidence; returns exit code"""
     t0 = time.time()
     seed = int(os.environ.get('VERIF_SEED', '0') or 0)
@@ -390,6 +390,8 @@ def check_property(prop_id, obls, tier, explanation, level='model_checking', tru
     extra_defs = ['-D%s' % k for k in my_kf]
     workdir = tempfile.mkdtemp(prefix='vf_%s_' % prop_id, dir=os.environ.get('VF_TMP', None))
     gen_config(os.path.join(workdir, 'gen'))
+    if prepare:
+        prepare(workdir)      # property-specific generated inputs (encodings regenerated from the current sources)
     jobs = jobs or int(os.environ.get('VF_JOBS', '12'))
     results = []
     try:
@@ -408,6 +410,10 @@ def check_property(prop_id, obls, tier, explanation, level='model_checking', tru
                 if r['status'] == 'fail':
                     pat = re.compile(e['where']) if e and 'where' in e else None
                     unexpected = [k for k in r['failed'] if not (pat and pat.search(k))]
+                    # 'sig': the probe differs from its proved twin ONLY by the excluded defect, so once the defect's signature
+                    # assertion is among the failures, the other failures of the probe are its consequences
+                    if e and 'sig' in e and any(re.search(e['sig'], k) for k in r['failed']):
+                        unexpected = []
                     if e and not unexpected:
                         known.append((r, e))
                         continue
